@@ -42,7 +42,7 @@ def gen_cases(tier, seed):
             for stale in (False, True):
                 if tier == 'quick' and stale and (len(sz) > 1 or ncp == 2):
                     continue
-                for mode in ('kill', 'raise', 'downstream', 'retry'):
+                for mode in ('kill', 'raise', 'downstream', 'retry', 'swallowed'):
                     i += 1
                     yield {'family': 'cp%d/%s' % (ncp, mode), 'sizes': sz, 'ncp': ncp, 'stale': stale, 'idx': i,
                            'seed': seed, 'tier': tier, 'mode': mode}
@@ -52,12 +52,14 @@ def tables_for(sizes):
     return [[{'id': r * 1000 + i, 't': 'row-%d-%d é' % (r, i)} for i in range(n)] for r, n in enumerate(sizes)]
 
 
-def make_flow(tables, ncp, cpdir, cnt, fail_at=None):
+def make_flow(tables, ncp, cpdir, cnt, fail_at=None, src_fail=None):
     d = lab.df()
 
     def source(i):
         def g():
-            for row in copy.deepcopy(tables[i]):
+            for n, row in enumerate(copy.deepcopy(tables[i])):
+                if src_fail is not None and src_fail == (i, n):
+                    raise IOError('source failed (connection reset)')
                 cnt['pulled'] += 1
                 yield row
         return g()
@@ -84,6 +86,14 @@ def make_flow(tables, ncp, cpdir, cnt, fail_at=None):
                         raise RuntimeError('downstream step failed at exhaustion')
                 yield it()
         steps.append(failing)
+    if src_fail is not None:
+        def tolerant(rows):
+            # a fault-tolerant consumer after the checkpoint: gives up on the resource whose source broke, goes on
+            try:
+                yield from rows
+            except Exception:
+                pass
+        steps.append(tolerant)
     steps.append(d.add_field('z', 'integer', 9))
     return steps
 
@@ -112,9 +122,9 @@ def run_case(case):
                 'fields': [[f['name'] for f in r['schema']['fields']] for r in dp['resources']],
                 'rows': [[sorted(row.items()) for row in res] for res in results]}
 
-    def run_plain(cpdir, fail_at=None):
+    def run_plain(cpdir, fail_at=None, src_fail=None):
         cnt = {'pulled': 0}
-        out = lab.run(make_flow(tables, ncp, cpdir, cnt, fail_at), validate=True)
+        out = lab.run(make_flow(tables, ncp, cpdir, cnt, fail_at, src_fail), validate=True)
         rep = {'ok': out.ok, 'pulled': cnt['pulled']}
         if out.ok:
             rep['summary'] = summarize(out.results, out.dp)
@@ -249,14 +259,31 @@ def run_case(case):
                 % (what, ncp - 1), 'committed_on_failure')
         recover(cpdir, complete, what)
         shutil.rmtree(cpdir, ignore_errors=True)
+    # the SOURCE fails while the checkpoints are being written and a step after them swallows the error: whatever the
+    # run returns, no checkpoint may be usable afterwards (none saw the complete stream)
+    for (j, r) in ([p_ for p_ in points if p_[1] != 'end'] if case['mode'] == 'swallowed' else []):
+        cpdir = 's_%d_%s' % (j, r)
+        prepare(cpdir)
+        code, rep = crashlab.in_child(lambda: run_plain(cpdir, src_fail=(j, r)), os.path.join(scratch, 'rep.json'))
+        what = 'source fails at resource %d row %s, a later step swallows the error' % (j, r)
+        counters['crash_points_executed'] += 1
+        cov['mode']['source_failure_swallowed_downstream'] = cov['mode'].get('source_failure_swallowed_downstream', 0) + 1
+        complete = post_crash(cpdir, what)
+        if complete:
+            add('checkpoint_committed_on_failure', '%s: checkpoints %r were committed' % (what, sorted(complete)),
+                'committed_on_failure')
+        recover(cpdir, complete, what)
+        shutil.rmtree(cpdir, ignore_errors=True)
     # in-process retry: the SAME Flow object is run again after a run that failed while the checkpoint was being
     # saved (a step downstream fails once): the retry must recompute from the sources and equal the baseline
     if case['mode'] == 'retry':
-        for (j, r) in points:
-            cpdir = 'r_%d_%s' % (j, r)
+        for (j, r, where) in [(j_, r_, w_) for (j_, r_) in points for w_ in ('downstream', 'upstream')]:
+            cpdir = 'r_%d_%s_%s' % (j, r, where)
             prepare(cpdir)
 
-            def retry(cpdir=cpdir, j=j, r=r):
+            flaky_text = (j + (0 if r == 'end' else r)) % 2 == 0 or where == 'upstream'
+
+            def retry(cpdir=cpdir, j=j, r=r, flaky_text=flaky_text, where=where):
                 cnt = {'pulled': 0}
                 state = {'armed': True}
                 desc = {'resources': [{'name': 'res%d' % i, 'path': 'res%d.csv' % i, 'schema': {'fields': copy.deepcopy(F)}}
@@ -271,6 +298,8 @@ def run_case(case):
                         def it(t=t):
                             for row in copy.deepcopy(t):
                                 cnt['pulled'] += 1
+                                if state['armed'] and flaky_text:
+                                    row['t'] = 'x'      # the first attempt sees other (shorter) data than the retry
                                 yield row
                         yield it()
 
@@ -289,17 +318,20 @@ def run_case(case):
                                 state['armed'] = False
                                 raise RuntimeError('downstream step failed at exhaustion (first attempt)')
                         yield it()
-                steps = [src, d.add_field('a', 'integer', 1), d.checkpoint('c0', checkpoint_path=cpdir)]
+                steps = [src, d.add_field('a', 'integer', 1)] + ([failing_once] if where == 'upstream' else []) + \
+                    [d.checkpoint('c0', checkpoint_path=cpdir)]
                 if ncp == 2:
                     steps += [d.add_field('b', 'string', 'x'), d.checkpoint('c1', checkpoint_path=cpdir)]
-                steps += [failing_once, d.add_field('z', 'integer', 9)]
+                steps += ([failing_once] if where == 'downstream' else []) + [d.add_field('z', 'integer', 9)]
                 flow = d.Flow(*steps)
                 rep = {'first_failed': False}
+                kept = []
                 try:
                     with boot.quiet():
                         flow.results()
-                except Exception:
+                except Exception as e:
                     rep['first_failed'] = True
+                    kept.append(e)      # a retry loop that reports the errors of failed attempts at the end
                 rep['complete_after_failure'] = [k for k in range(ncp)
                                                  if os.path.exists(os.path.join(cpdir, 'c%d' % k, 'stream.ndjson'))]
                 cnt['pulled'] = 0
@@ -309,9 +341,15 @@ def run_case(case):
                     rep.update(ok=True, summary=summarize(results, dp.descriptor), pulled=cnt['pulled'])
                 except Exception as e:
                     rep.update(ok=False, error='%s: %s' % (type(getattr(e, 'cause', e)).__name__, str(e)[:200]))
+                rep['errors_of_failed_attempts'] = [type(x).__name__ for x in kept]
+                # what a normal interpreter exit does (the lab's children leave through os._exit): drop the failed
+                # attempt's objects and collect them, so that file objects they still hold are flushed and closed
+                import gc
+                del kept[:]
+                gc.collect()
                 return rep
             code, rep = crashlab.in_child(retry, os.path.join(scratch, 'rep.json'))
-            what = 'same Flow object retried after a downstream failure at resource %d row %s' % (j, r)
+            what = 'same Flow object retried after a failure %s of the checkpoint at resource %d row %s' % (where, j, r)
             counters['crash_points_executed'] += 1
             cov['mode']['retry_same_object'] = cov['mode'].get('retry_same_object', 0) + 1
             if code != 0 or not rep or rep.get('child_exception'):
@@ -332,6 +370,10 @@ def run_case(case):
             elif not rep['complete_after_failure'] and rep['pulled'] != total:
                 add('retry_source_use', '%s: the retry pulled %d source rows, expected %d' % (what, rep['pulled'], total),
                     'retry_source_use')
+            # after the process that retried has exited (all its file objects flushed / collected): the checkpoints the
+            # retry committed must be complete, and a later run that picks them up equals an uninterrupted run
+            complete = post_crash(cpdir, what + ' (after process exit)')
+            recover(cpdir, complete, what + ' (after process exit)')
             shutil.rmtree(cpdir, ignore_errors=True)
     shutil.rmtree('base', ignore_errors=True)
     shutil.rmtree('rec', ignore_errors=True)
